@@ -22,7 +22,7 @@ from ..tlc import MachineryError, run_tlc, workdir
 
 INVARIANTS = ["KernelMatches", "OwnMatches", "LockMutex", "CacheBound", "CacheSound", "Sequential", "NoSharedStruct"]
 PARAMS = {"quick": dict(schedules=14, free_rounds=5, nthreads=16, three=False, hammer_rounds=2, hammer_calls=150, heavy_rounds=4),
-          "thorough": dict(schedules=400, free_rounds=40, nthreads=16, three=True, hammer_rounds=8, hammer_calls=3000, heavy_rounds=30)}
+          "thorough": dict(schedules=400, free_rounds=40, nthreads=16, three=True, hammer_rounds=8, hammer_calls=800, heavy_rounds=20)}
 
 
 def make_requests(rng):
@@ -170,8 +170,11 @@ def run(tier, seed):
             rounds.append({"rid": len(rounds), "scenario": "operator-hammer", "threads": threads, "warm": ["o1"], "schedule": None,
                            "hammer": max(40, P.get("hammer_calls", 300) // 3)})
         # run all rounds natively (several sacrificial workers, each with its own interpreter)
-        chunks = [rounds[i::14] for i in range(14)]
-        tasks = [{"id": str(i), "op": "concurrency", "requests": reqs, "rounds": ch, "timeout": 900} for i, ch in enumerate(chunks) if ch]
+        # long rounds (hammer, cold-heavy) get a worker of their own, the others are chunked
+        long_rounds = [rd for rd in rounds if rd.get("hammer") or rd.get("results_only")]
+        short_rounds = [rd for rd in rounds if not (rd.get("hammer") or rd.get("results_only"))]
+        chunks = [short_rounds[i::12] for i in range(12)] + [[rd] for rd in long_rounds]
+        tasks = [{"id": str(i), "op": "concurrency", "requests": reqs, "rounds": ch, "timeout": 1500} for i, ch in enumerate(chunks) if ch]
         nat = Pool(14).run(tasks)
         # wall-clock limits say little on a loaded machine: a round that looked hung (or whose worker ran into its time
         # limit) is run again alone, in a fresh worker, with five-fold patience; only the second verdict counts
